@@ -934,7 +934,11 @@ class Tensor:
         if self._base is None:
             return self._grad
 
-        if self._view_grad is not None and self._view_grad.base is self._base._grad:
+        if (
+            self._view_grad is not None
+            and self._base._grad is not None
+            and self._view_grad.base is self._base._grad
+        ):
             # view grad has been computed already
             return self._view_grad
 
